@@ -165,7 +165,7 @@ theorem asg_ok {vs : List Sym} (hvs : ∀ v ∈ vs, v.ret = .bool ∧ v.params =
   constructor
   · intro kv hkv
     obtain ⟨v, hv, rfl⟩ := List.mem_map.mp hkv
-    exact ⟨v, rfl, (hvs v hv).2, (hvs v hv).1, wb_bool _⟩
+    exact ⟨v, rfl, (hvs v hv).2, (wb_bool _).1, by rw [(wb_bool _).2, (hvs v hv).1]⟩
   · intro kv hkv
     obtain ⟨v, hv, rfl⟩ := List.mem_map.mp hkv
     exact isQF_bool _
